@@ -19,7 +19,8 @@ EXPLANATION = (
     "S4 version constants ('MQIsdp',3) and ('MQTT',4); S5 length prefixes count the bytes that follow (= C01/L5); S6 stored "
     "packets are patched outside pdu.py only at byte 0 with dup<<3; S7 unrepresentable input raises (65535 string guard -> "
     "ValueError subclass, payload type dispatch ends in a TypeError subclass, 268435455 guard, 16-bit integers stored into "
-    "a bytearray whose item assignment is the range check). Through C01's L2-L4 the decoders read what the encoders write. "
+    "a bytearray whose item assignment is the range check); S8 the primitive encoders (remaining length, 16-bit, string) have the "
+    "prescribed radix, byte order and continuation/exit tests. Through C01's L2-L4 the decoders read what the encoders write. "
     "Value-level equality with a reference encoder on concrete inputs is NOT decided.")
 ASSUMPTIONS = ["the MQTT 3.1.1 layout table in this file is a faithful transcription of the OASIS specification"]
 
@@ -233,6 +234,14 @@ def check(ctx):
         if p.rule in ("L5", "S7"):
             ctx.ob("S5" if p.rule == "L5" else "S7", "%s %s" % (p.cls, p.what), False, where=loc(p.node), function="mqtt.pdu.%s" % p.cls,
                    construct="mqtt.pdu.%s/%s" % (p.cls, p.what), msg=p.msg)
+    enc_prims = ("encodeLength", "encode16Int", "encodeString")
+    for p in probs:
+        if p.rule == "L1" and any(p.cls.startswith(x) for x in enc_prims):
+            ctx.ob("S8", "%s %s" % (p.cls, p.what), False, where=loc(p.node), function="mqtt.pdu.%s" % p.cls.split("/")[0],
+                   construct="mqtt.pdu.%s/%s" % (p.cls, p.what), msg=p.msg)
+    for x in enc_prims:
+        if not [p for p in probs if p.rule == "L1" and p.cls.startswith(x)]:
+            ctx.ob("S8", "%s produces the prescribed encoding (radix, byte order, continuation)" % x, True, where="src/mqtt/pdu.py", construct="mqtt.pdu.%s/shape" % x)
     if not [p for p in probs if p.rule == "L5"]:
         ctx.ob("S5", "encodeString prefix counts the UTF-8 bytes", True, where="src/mqtt/pdu.py", construct="mqtt.pdu.encodeString/prefix")
     if not [p for p in probs if p.rule == "S7"]:
